@@ -79,3 +79,13 @@ MUTANTS += [
     ("M44", "xgi/core/globalviews.py", "    new._net_attr = H._net_attr.copy()", "    new._net_attr = H._net_attr\n    new._net_attr['sub'] = True", ["C08"], "subhypergraph writes into the source's network attributes"),
     ("M45", "xgi/convert/hif_dict.py", "def to_hif_dict(H):", "def to_hif_dict(H):\n    H._net_attr.setdefault('network-type', 'undirected')", ["C08"], "to_hif_dict records the type in the input's attributes"),
 ]
+
+MUTANTS += [
+    ("M50", H, "        self.remove_nodes_from = frozen\n        self.add_edge = frozen\n        self.add_edges_from = frozen\n        self.add_weighted_edges_from = frozen", "        self.remove_nodes_from = frozen\n        self.add_edge = frozen\n        self.add_edges_from = frozen", ["C18"], "Hypergraph.freeze forgets add_weighted_edges_from (still blocked indirectly: equivalent)"),
+    ("M51", D, "        self.remove_edge = frozen\n        self.remove_edges_from = frozen\n        self.add_node_to_edge = frozen", "        self.remove_edges_from = frozen\n        self.add_node_to_edge = frozen", ["C18"], "DiHypergraph.freeze forgets remove_edge"),
+    ("M52", "xgi/core/globalviews.py", "    new.freeze()\n    return new", "    return new", ["C18", "C19"], "subhypergraph without freeze()"),
+    ("M53", H, "        cp._edge_uid = copy(self._edge_uid)\n\n        return cp\n\n    def dual", "        cp._edge_uid = copy(self._edge_uid)\n        if self.is_frozen:\n            cp.freeze()\n\n        return cp\n\n    def dual", ["C18", "C07"], "copy() propagates frozen"),
+    ("M54", S, "        self.remove_simplex_id = frozen\n", "", ["C18"], "SimplicialComplex.freeze forgets remove_simplex_id"),
+    ("M55", "xgi/exception.py", "    raise XGIError(\"Frozen higher-order network can't be modified\")", "    raise RuntimeError(\"Frozen higher-order network can't be modified\")", ["C18"], "frozen raises a foreign error type"),
+    ("M56", H, "        self.frozen = True\n\n    @property\n    def is_frozen", "        self.frozen = False\n\n    @property\n    def is_frozen", ["C18"], "is_frozen reports False after freeze"),
+]
